@@ -329,6 +329,31 @@ func (t *Dense) makeMask() {
 	memsetBools(t.mask, false)
 }
 
+// keepMaskOutsideView is for the masking predicates, which sweep the whole storage window of t. The window of a view
+// also holds elements of its parent that are not the view's (and a sliced mask is shared with the parent): it returns
+// the step that puts the mask entries of those elements back as they were. For any other tensor the step does nothing.
+func (t *Dense) keepMaskOutsideView() func() {
+	if !t.IsView() || !t.IsMasked() || t.len() == t.Shape().TotalSize() {
+		return func() {}
+	}
+	before := make([]bool, len(t.mask))
+	copy(before, t.mask)
+	return func() {
+		own := make([]bool, len(t.mask))
+		it := newFlatIterator(&t.AP)
+		for i, err := it.Next(); err == nil; i, err = it.Next() {
+			if i >= 0 && i < len(own) {
+				own[i] = true
+			}
+		}
+		for i := range t.mask {
+			if !own[i] {
+				t.mask[i] = before[i]
+			}
+		}
+	}
+}
+
 // sanity is a function that sanity checks that a tensor is correct.
 func (t *Dense) sanity() error {
 	if !t.AP.IsZero() && t.Shape() == nil && t.array.Header.Raw == nil {
